@@ -25,8 +25,8 @@ ASSUMPTIONS = [
 N = {'quick': 600, 'thorough': 4000}
 SHAPES = ['direct', 'map_above', 'rev_slice', 'batch2', 'chain', 'items_below', 'items_map', 'copied',
           'copied_frozen', 'warn', 'list_zip_warn']
-RAISED = ['FilterException', 'VErrA', 'VErrB', 'VErrC', 'ValueError']
-SPECS = [None, 'VErrA', ['VErrA', 'VErrC'], 'Exception', 'ValueError', 'LookupError', ['KeyError', 'VErrC']]
+RAISED = ['FilterException', 'VErrA', 'VErrB', 'VErrC', 'ValueError', 'IndexError']
+SPECS = [None, 'VErrA', ['VErrA', 'VErrC'], 'Exception', 'ValueError', 'LookupError', ['KeyError', 'VErrC'], []]
 
 
 def plan(tier):
@@ -84,6 +84,22 @@ def check_program(node):
     return m
 
 
+def check_reshuffled(kind, n, fail, spec, seed_):
+    """source -> per-epoch reshuffle -> raising map -> catch(E covering every raised type): every epoch delivers
+    exactly the surviving examples (as a multiset) - what is dropped must not depend on earlier epochs."""
+    node = make(kind, n, fail, 'direct', spec)
+    boom = node['in']
+    boom['in'] = {'op': 'reshuffle', 'seed': seed_, 'in': boom['in']}
+    ds, _ = progcheck.build_checked(node)
+    base = {'op': 'boomset', 'fail': boom['fail'], 'fn': 0, 'in': boom['in']['in']}
+    want = sorted(repr(v) for v in ev({'op': 'catch', 'exc': spec, 'in': base}).vals)
+    for epoch in range(3):
+        got, exc, _ = observe.take(lambda: ds, 50)
+        if exc is not None or sorted(map(repr, got)) != want:
+            raise Violation('catch-over-reshuffle-epoch', f'program: {progs.show(node)} epoch {epoch}\ngot {got} '
+                                                          f'({exc!r})\nexpected a permutation of {want}')
+
+
 def three_way(node, mm, r):
     """filter(p) / filter(p, lazy=False) / map(raise unless p).catch() select the same examples."""
     lazy = {'op': 'filter', 'm': mm, 'r': r, 'lazy': True, 'in': node}
@@ -106,7 +122,10 @@ def three_way(node, mm, r):
 
 def replay(case):
     progcheck.setup_process()
-    if case.get('mode') == 'three_way':
+    if case.get('mode') == 'reshuffled':
+        check_reshuffled(case['kind'], case['n'], {int(k): v for k, v in case['fail'].items()}, 'VErrA',
+                         3 + len(case['fail']))
+    elif case.get('mode') == 'three_way':
         three_way(case['ast'], case['m'], case['r'])
     else:
         check_program(case['ast'])
@@ -169,8 +188,18 @@ def run_shard(tier, idx, nshards, rec, known):
                         fail = {p: raised for p in subset}
                         if len(subset) >= 2:  # mix two types
                             fail[subset[-1]] = RAISED[(RAISED.index(raised) + 1) % len(RAISED)]
+                        if subset and raised == 'VErrA' and len(subset) <= 2:
+                            try:
+                                check_reshuffled(kind, n, {p: 'VErrA' for p in subset}, 'VErrA', 3 + len(subset))
+                            except Violation as v:
+                                if not known.match(v.sig):
+                                    out.violation = ({'mode': 'reshuffled', 'kind': kind, 'n': n,
+                                                      'fail': {str(p): 'VErrA' for p in subset}}, v.sig, v.detail)
+                                    return [out]
                         for spec in SPECS:
                             for shape in SHAPES:
+                                if 'IndexError' in fail.values() and shape == 'batch2':
+                                    continue  # BatchDataset documents IndexError of its input as "end of data"
                                 node = make(kind, n, fail, shape, spec)
                                 if node is None:
                                     continue
